@@ -107,8 +107,8 @@ class Block:
         return '%s%s for %s' % (trait_name, targs, self_ty)
 
 
-def trait_def(name, generics='', unsafe=False, with_fn=True):
-    return ('pub %strait %s%s {\n    const NAME: &\'static str;\n    const ID: u8 = 0;\n'
+def trait_def(name, generics='', unsafe=False, with_fn=True, where=''):
+    return ('pub %strait %s%s' + (' ' + where if where else '') + ' {\n    const NAME: &\'static str;\n    const ID: u8 = 0;\n'
             '    fn f() -> &\'static str { "default" }\n}\n') % ('unsafe ' if unsafe else '', name, generics)
 
 
@@ -158,6 +158,22 @@ SPELL = {'T0': ['T', 'U', 'A', 'Elem', 'Tr', 'T0'], 'T1': ['U', 'T', 'B', 'Other
          'N0': ['N', 'M', 'LEN'], 'L0': ["'a", "'b", "'x"]}
 
 
+class Picker:
+    """systematic choice of a case's primary axes: with an index the named axes are enumerated
+    in mixed radix (so a run of consecutive indices covers their cross product), without one
+    they are random"""
+    def __init__(self, rng, idx=None):
+        self.rng, self.idx, self.radix = rng, idx, 1
+
+    def choice(self, options):
+        options = list(options)
+        if self.idx is None:
+            return self.rng.choice(options)
+        v = options[(self.idx // self.radix) % len(options)]
+        self.radix *= len(options)
+        return v
+
+
 def slot_kind(slot):
     return {'T': 'ty', 'N': 'const', 'L': 'lt'}[slot[0]]
 
@@ -175,7 +191,7 @@ def mk_slots(rng, used, canonical=False):
     return slots
 
 
-def gen_family(rng, hname, nblocks, tag0, key_choices=None, canonical_names=False, extra=True, relax=False):
+def gen_family(rng, hname, nblocks, tag0, key_choices=None, canonical_names=False, extra=True, relax=False, tr=None):
     """blocks of one flat family, pairwise distinguished on a shared key"""
     self_fmt, used = HEADERS[hname]
     tyslots = [s for s in used if s[0] == 'T']
@@ -188,7 +204,7 @@ def gen_family(rng, hname, nblocks, tag0, key_choices=None, canonical_names=Fals
     if hname == 'pairvec':
         cands.append('Vec<{T1}>')
     bounded = rng.choice(key_choices or cands)
-    tr = rng.choice(['D', 'D', 'D2', 'Dp', 'Dp<u8>'])
+    tr = tr or rng.choice(['D', 'D', 'D2', 'Dp', 'Dp<u8>'])
     assoc = rng.choice(TRAITS[tr])
     groups = rng.sample(GROUPS, min(nblocks, 3))
     blocks = []
@@ -263,7 +279,7 @@ class Case:
 
     def invocation(self, order=None):
         blocks = self.blocks if order is None else [self.blocks[i] for i in order]
-        body = (trait_def(self.trait_name, self.trait_generics) if self.trait_name else '')
+        body = (trait_def(self.trait_name, self.trait_generics, where=getattr(self, 'trait_where', '')) if self.trait_name else '')
         body += ''.join(block_text(b, self.trait_name) for b in blocks)
         return body
 
@@ -334,8 +350,9 @@ def build_world_and_probes(rng, blocks, headers, unsized=False, nprobes=6, impl_
 def gen_targs_case(rng, variant=None):
     """traits with lifetime / type / const parameters (bounds, defaults, ?Sized): blocks for
     generic and for concrete instantiations, families per instantiation"""
-    variant = variant or rng.choice(['generic', 'concrete', 'lifetime', 'const', 'bounded', 'unsized_arg', 'mixed', 'default_omitted', 'nested_unsized'])
+    variant = variant or rng.choice(['generic', 'concrete', 'lifetime', 'const', 'bounded', 'unsized_arg', 'mixed', 'default_omitted', 'nested_unsized', 'unsized_where'])
     tr = rng.choice(['D', 'D2'])
+    trait_where = ''
     def fam(trait_args, self_fmt, used, groups, tag0, extra_bounds=(), relaxed=None):
         out = []
         for i, g in enumerate(groups):
@@ -379,6 +396,15 @@ def gen_targs_case(rng, variant=None):
         tg = '<P: ?Sized>'
         blocks = fam('{T1}', '{T0}', ['T0', 'T1'], rng.sample(GROUPS, 2), 0, relaxed={'T1': rng.choice(['inline', 'where'])})
         targs_pool = ['X0', 'str', '[u8]']
+    elif variant == 'unsized_where':
+        # ?Sized declared inline on the trait parameter, and a where-clause on the same parameter
+        # in the trait definition (the where predicate comes first in the generated main impl)
+        tg = '<P: ?Sized>'
+        trait_where = 'where P: Tr0'
+        blocks = fam('{T1}', '{T0}', ['T0', 'T1'], rng.sample(GROUPS, 2), 0, extra_bounds=[('{T1}', 'Tr0', {})],
+                     relaxed={'T1': rng.choice(['inline', 'where'])})
+        extra_world = 'impl Tr0 for X0 {}\nimpl Tr0 for str {}\nimpl Tr0 for [u8] {}\n'
+        targs_pool = ['X0', 'str', '[u8]']      # `K<X1>` would be ill-formed (X1: Tr0 does not hold)
     elif variant == 'default_omitted':
         # a defaulted (bounded) trailing parameter omitted at every use site, after a lifetime
         # or const parameter
@@ -423,21 +449,24 @@ def gen_targs_case(rng, variant=None):
     world = {}
     for ty in ['X0', 'X1', 'X2', 'Vec<X0>'] + (['str', '[u8]'] if variant == 'nested_unsized' else []):
         world[(ty, tr)] = {a: rng.choice(GROUPS) for a in TRAITS[tr]} if rng.random() < 0.85 else None
-    return Case('targs:' + variant, 'K', tg, blocks, probes, world, extra_world=extra_world)
+    c = Case('targs:' + variant, 'K', tg, blocks, probes, world, extra_world=extra_world)
+    c.trait_where = trait_where
+    return c
 
 
-def gen_case(rng, kind):
+def gen_case(rng, kind, idx=None):
+    pk = Picker(rng, idx)
     if kind == 'targs':
         return gen_targs_case(rng)
     if kind.startswith('targs:'):
         return gen_targs_case(rng, kind.split(':')[1])
     if kind == 'flat':
-        h = rng.choice(['T', 'pair', 'vec', 'opt', 'box', 'arr', 'vecpair', 'w', 'dup', 'ref'])
-        blocks = gen_family(rng, h, rng.choice([2, 2, 3]), 0)
+        h = pk.choice(['T', 'pair', 'vec', 'opt', 'box', 'arr', 'vecpair', 'w', 'dup', 'ref'])
+        blocks = gen_family(rng, h, rng.choice([2, 2, 3]), 0, tr=pk.choice(['D', 'D2', 'Dp', 'Dp<u8>']))
         headers = [HEADERS[h]] * len(blocks)
     elif kind == 'unsized':
-        h = rng.choice(['T', 'box', 'ref'])
-        blocks = gen_family(rng, h, rng.choice([2, 3]), 0, relax=True)
+        h = pk.choice(['T', 'box', 'ref'])
+        blocks = gen_family(rng, h, pk.choice([2, 3]), 0, relax=True, tr=pk.choice(['D', 'D2', 'Dp', 'Dp<u8>']))
         headers = [HEADERS[h]] * len(blocks)
         for i, b in enumerate(blocks):
             b.tag = 'b%d' % i
@@ -446,10 +475,10 @@ def gen_case(rng, kind):
     elif kind == 'unsized2':
         # a family dispatched on two parameters; some blocks relax Sized on the boxed one,
         # inline or in the where-clause; a sibling may leave that key as a wildcard
-        h = rng.choice(['pairbox', 'pairbox', 'refpair'])
+        h = pk.choice(['pairbox', 'refpair'])
         self_fmt, used = HEADERS[h]
-        tr = rng.choice(['D', 'D2'])
-        rows = rng.choice([
+        tr = pk.choice(['D', 'D2'])
+        rows = pk.choice([
             [('GA', 'GA'), ('GA', 'GB'), ('GB', None)],
             [('GA', 'GA'), ('GB', 'GA')],
             [('GA', None), ('GB', 'GC'), ('GC', 'GA')],
@@ -503,7 +532,7 @@ def gen_case(rng, kind):
         headers = [headers[i] for i in order]
     elif kind == 'nested':
         # general family on a key the nested members can express
-        gen_h, spec_h, key, spec_key = rng.choice([
+        gen_h, spec_h, key, spec_key = pk.choice([
             ('pair', 'vecpair', '{T1}', '{T1}'),          # (T,U) > (Vec<T>,U), key on U
             ('pair', 'pairvec', '{T0}', '{T0}'),          # (T,U) > (T,Vec<U>), key on T
             ('T', 'vec', None, None), ('T', 'opt', None, None),
@@ -546,12 +575,12 @@ def gen_case(rng, kind):
     elif kind == 'nestedx':
         # a nested member that also bounds a parameter the general header cannot name, over a
         # dispatch trait with a type parameter:  (T,U): T: Dq<U, G=..>  >  (Vec<T>,U): [Vec<T>: Dq<U, G=..>,] T: Dq<U, G=..>
-        spec_h, wrap = rng.choice([('vecpair', 'Vec<{T0}>'), ('optpair', 'Option<{T0}>')])
+        spec_h, wrap = pk.choice([('vecpair', 'Vec<{T0}>'), ('optpair', 'Option<{T0}>')])
         tr = 'Dq<{T1}>'
         g = rng.sample(GROUPS, 3)
         pl = lambda: rng.choice(['inline', 'where'])
-        general = [Block(mk_slots(rng, ['T0', 'T1']), None, '({T0}, {T1})', [('{T0}', tr, {'G': g[i]}, pl())], 'b%d' % i) for i in range(rng.choice([1, 2]))]
-        variant = rng.choice(['only_inner', 'key_then_inner', 'inner_then_key'])
+        general = [Block(mk_slots(rng, ['T0', 'T1']), None, '({T0}, {T1})', [('{T0}', tr, {'G': g[i]}, pl())], 'b%d' % i) for i in range(pk.choice([1, 2]))]
+        variant = pk.choice(['only_inner', 'key_then_inner', 'inner_then_key'])
         inner = ('{T0}', tr, {'G': rng.choice(GROUPS)}, pl())
         keyb = (wrap, tr, {'G': g[2]}, 'where')
         nb_bounds = {'only_inner': [inner], 'key_then_inner': [keyb, inner], 'inner_then_key': [inner, keyb]}[variant]
@@ -564,11 +593,20 @@ def gen_case(rng, kind):
         for i, b in enumerate(blocks):
             b.tag = 'b%d' % i
         probes, world = build_world_and_probes(rng, blocks, headers, nprobes=8, impl_rate=0.9, prefer_rate=0.7)
+        # make witnesses likely: element types carry the inner bound's group, wrapped types a general one
+        wname = wrap.split('<')[0]
+        for (ty, trt) in list(world):
+            if world[(ty, trt)] is None:
+                continue
+            if ty.startswith(wname + '<') and rng.random() < 0.7:
+                world[(ty, trt)] = {'G': rng.choice([b.bounds[0][2]['G'] for b in general])}
+            elif not ty.startswith(wname + '<') and rng.random() < 0.5:
+                world[(ty, trt)] = {'G': inner[2]['G']}
         return Case(kind, 'K', '', blocks, probes, world)
     elif kind == 'overlap':
-        h = rng.choice(['T', 'pair', 'vec', 'opt', 'vecpair'])
-        blocks = gen_family(rng, h, 2, 0, extra=False)
-        mode = rng.choice(['same', 'wild', 'otherkey'])
+        mode = pk.choice(['same', 'wild', 'otherkey'])
+        h = pk.choice(['T', 'pair', 'vec', 'opt', 'vecpair'])
+        blocks = gen_family(rng, h, 2, 0, extra=False, tr=pk.choice(['D', 'D2', 'Dp', 'Dp<u8>']))
         b0, b1 = blocks
         bounded, tr, binds, place = b1.bounds[0]
         if mode == 'same':
@@ -584,5 +622,5 @@ def gen_case(rng, kind):
         raise ValueError(kind)
     for i, b in enumerate(blocks):
         b.tag = 'b%d' % i
-    probes, world = build_world_and_probes(rng, blocks, headers)
+    probes, world = build_world_and_probes(rng, blocks, headers, prefer_rate=0.5 if kind == 'overlap' else 0.0)
     return Case(kind, 'K', '', blocks, probes, world)
